@@ -314,6 +314,15 @@ impl ServerInner {
 
                     Err(err) => error!("can not restart worker {}: {}", idx, err),
                 };
+
+                #[cfg(actix_net_verif)]
+                crate::verif::srv_handles(
+                    idx,
+                    self.worker_handles
+                        .iter()
+                        .map(|wrk| (wrk.idx, wrk.verif_live()))
+                        .collect(),
+                );
             }
         }
     }
